@@ -201,11 +201,12 @@ Proof. intros st h Hi. exact Hi. Qed.
 
 Lemma inv_do_act : forall cfg a st st' l, inv st -> do_act cfg st a = (st', l) -> inv st'.
 Proof.
-  intros cfg a st st' l Hi H. destruct a as [k t p tag h body|tag|h]; cbn [do_act] in H.
+  intros cfg a st st' l Hi H. destruct a as [k t p tag h body|tag|h|]; cbn [do_act] in H.
   - destruct (do_sched cfg st k t p tag h body) as [s rc] eqn:E. inversion H; subst.
     eapply inv_do_sched; eassumption.
   - inversion H; subst. apply inv_do_cancel, Hi.
   - inversion H; subst. apply inv_do_drop, Hi.
+  - inversion H; subst. exact Hi.
 Qed.
 
 Lemma inv_do_acts : forall cfg acts st st' l, inv st -> do_acts cfg st acts = (st', l) -> inv st'.
@@ -213,6 +214,8 @@ Proof.
   intros cfg acts. induction acts as [|a r IH]; intros st st' l Hi H; cbn [do_acts] in H.
   - inversion H; subst. exact Hi.
   - destruct (do_act cfg st a) as [s1 l1] eqn:E1.
+    destruct (has_raise l1) eqn:Hr.
+    { inversion H; subst. eapply inv_do_act; eassumption. }
     destruct (do_acts cfg s1 r) as [s2 l2] eqn:E2. inversion H; subst.
     eapply IH; [|exact E2]. eapply inv_do_act; eassumption.
 Qed.
@@ -293,6 +296,8 @@ Proof.
   - destruct (pop_event (s_events st)) as [[e rest]|] eqn:Ep.
     + destruct (Z.leb_spec (e_time e) endt).
       * destruct (exec_event cfg (set_events st rest) e) as [s1 l1] eqn:E1.
+        destruct (has_raise l1) eqn:Hr.
+        { inversion H; subst. eapply inv_exec_event; eassumption. }
         destruct (run_loop cfg n endt s1) as [[s2 l2] ok2] eqn:E2. inversion H; subst.
         eapply IH; [|exact E2]. eapply inv_exec_event; eassumption.
       * inversion H; subst. apply inv_stop; assumption.
@@ -487,9 +492,10 @@ Qed.
 
 Lemma do_act_time : forall cfg a st st' l, do_act cfg st a = (st', l) -> s_time st' = s_time st.
 Proof.
-  intros cfg a st st' l H. destruct a as [k t p tag h body|tag|h]; cbn [do_act] in H.
+  intros cfg a st st' l H. destruct a as [k t p tag h body|tag|h|]; cbn [do_act] in H.
   - destruct (do_sched cfg st k t p tag h body) as [s rc] eqn:E. inversion H; subst.
     eapply do_sched_time; exact E.
+  - inversion H; subst. reflexivity.
   - inversion H; subst. reflexivity.
   - inversion H; subst. reflexivity.
 Qed.
@@ -499,6 +505,8 @@ Proof.
   intros cfg acts. induction acts as [|a r IH]; intros st st' l H; cbn [do_acts] in H.
   - inversion H; subst. reflexivity.
   - destruct (do_act cfg st a) as [s1 l1] eqn:E1.
+    destruct (has_raise l1) eqn:Hr.
+    { inversion H; subst. eapply do_act_time; exact E1. }
     destruct (do_acts cfg s1 r) as [s2 l2] eqn:E2. inversion H; subst.
     rewrite (IH _ _ _ E2). eapply do_act_time; exact E1.
 Qed.
@@ -533,6 +541,7 @@ Proof.
   - destruct (pop_event (s_events st)) as [[e rest]|] eqn:Ep.
     + destruct (e_time e <=? endt).
       * destruct (exec_event cfg (set_events st rest) e) as [s1 l1] eqn:E1.
+        destruct (has_raise l1) eqn:Hr; [discriminate H|].
         destruct (run_loop cfg n endt s1) as [[s2 l2] ok2] eqn:E2. inversion H; subst.
         eapply IH; exact E2.
       * inversion H; subst. reflexivity.
@@ -547,9 +556,11 @@ Proof.
   - destruct (pop_event (s_events st)) as [[e rest]|] eqn:Ep.
     + destruct (Z.leb_spec (e_time e) endt).
       * destruct (exec_event cfg (set_events st rest) e) as [s1 l1] eqn:E1.
-        destruct (run_loop cfg n endt s1) as [[s2 l2] ok2] eqn:E2. inversion H; subst.
         pose proof (exec_event_time _ _ _ _ _ E1) as Ht.
         destruct (inv_pop _ _ _ Hi Ep) as [_ [Hte _]].
+        destruct (has_raise l1) eqn:Hr.
+        { inversion H; subst. lia. }
+        destruct (run_loop cfg n endt s1) as [[s2 l2] ok2] eqn:E2. inversion H; subst.
         assert (Hi1 : inv s1) by (eapply inv_exec_event; eassumption).
         assert (Hle1 : s_time s1 <= endt) by lia.
         pose proof (IH _ _ _ _ Hi1 Hle1 E2). lia.
@@ -565,6 +576,7 @@ Proof.
   - destruct (pop_event (s_events st)) as [[e rest]|] eqn:Ep.
     + destruct (Z.leb_spec (e_time e) endt).
       * destruct (exec_event cfg (set_events st rest) e) as [s1 l1] eqn:E1.
+        destruct (has_raise l1) eqn:Hr; [discriminate H|].
         destruct (run_loop cfg n endt s1) as [[s2 l2] ok2] eqn:E2. inversion H; subst.
         eapply IH; [|exact E2]. eapply inv_exec_event; eassumption.
       * inversion H; subst. cbn [s_events set_events].
@@ -582,6 +594,7 @@ Proof.
     destruct (pop_event (s_events st)) as [[e rest]|] eqn:Ep; [|exact H].
     destruct (e_time e <=? endt); [|exact H].
     destruct (exec_event cfg (set_events st rest) e) as [s1 l1] eqn:E1.
+    destruct (has_raise l1) eqn:Hr; [discriminate H|].
     destruct (run_loop cfg n endt s1) as [[s2 l2] ok2] eqn:E2. inversion H; subst.
     rewrite (IH _ _ _ E2 m) by lia. reflexivity.
 Qed.
